@@ -10,15 +10,18 @@ package c20
 import (
 	"archive/zip"
 	"bytes"
+	"context"
 	"fmt"
 	"io"
 	"log"
+	"net/http"
 	"net/http/httptest"
 	"os"
 	"path/filepath"
 	"sort"
 	"strings"
 	"testing"
+	"time"
 
 	"github.com/rogpeppe/go-internal/goproxytest"
 	"pgregory.net/rapid"
@@ -37,6 +40,9 @@ func init() { log.SetOutput(io.Discard) }
 
 var paths = []string{"example.com/a", "example.com/Mixed/Case", "example.com/b/v2", "rsc.io/q"}
 var versions = []string{"v1.0.0", "v1.2.3", "v1.3.0-beta.1", "v0.0.0-20200101120000-abcdef123456", "v2.0.0+incompatible", "v2.1.0", "v1.0.0-RC1", "v0.1.0"}
+
+const pseudo = "v0.0.0-20200101120000-abcdef123456"
+
 var fileNames = []string{"go.mod", "x.go", "pkg/y.go", "pkg/sub/z.go", ".hidden", "pkg/.golden/out.txt", ".dot/inner.txt", "README", "pkg/.keep"}
 
 type FileSpec struct {
@@ -60,6 +66,14 @@ type Req struct {
 	Ver  int    `json:"ver,omitempty"`
 	Raw  string `json:"raw,omitempty"`
 	Near int    `json:"near,omitempty"` // >0: a spelling close to the version (shortened, padded, with build metadata ...) that is not stored
+	// Hash: the version is named by (a prefix or an extension of) the commit hash of the stored pseudo-version;
+	// the statement says nothing about such requests, so their responses are not asserted when the module path
+	// has stored versions - they are there to disturb the requests that are.
+	Hash string `json:"hash,omitempty"`
+	Gone bool   `json:"gone,omitempty"` // fault: the client has given up (request context cancelled) when the handler runs; response not asserted
+	// slow client: simulated seconds that pass while the request headers travel, and per write of the response
+	HeaderDelay int `json:"header_delay,omitempty"`
+	Stall       int `json:"stall,omitempty"`
 }
 
 // nearMiss derives version spellings that are not what is stored.
@@ -136,6 +150,17 @@ func genPlan(t *rapid.T, tier string) any {
 		}
 		if rapid.IntRange(0, 5).Draw(t, "near") == 0 {
 			r.Near = rapid.IntRange(1, 8).Draw(t, "nearkind")
+		}
+		if r.Near == 0 && versions[r.Ver] == pseudo && rapid.IntRange(0, 2).Draw(t, "byhash") == 0 {
+			r.Hash = rapid.SampledFrom([]string{"abcdef123456", "abcdef12", "abcdef1234567890"}).Draw(t, "hash")
+		}
+		switch rapid.IntRange(0, 11).Draw(t, "clientfault") {
+		case 0:
+			r.Gone = true
+		case 1:
+			r.Stall = rapid.SampledFrom([]int{1, 4, 6, 30, 120}).Draw(t, "stall")
+		case 2:
+			r.HeaderDelay = rapid.SampledFrom([]int{1, 4, 6, 30, 120}).Draw(t, "hdelay")
 		}
 		switch k := rapid.IntRange(0, 9).Draw(t, "rkind"); {
 		case k <= 1:
@@ -312,6 +337,15 @@ func run(t *testing.T, plan any, keep bool) *simcheck.Outcome {
 		if r.Near > 0 {
 			vers = nearMiss(vers, r.Near)
 		}
+		if r.Hash != "" {
+			url += r.Hash + "." + r.Kind
+			for _, m := range p.Mods {
+				if m.Path == r.Path {
+					return url, expect{code: -1} // not asserted
+				}
+			}
+			return url, expect{code: 404}
+		}
 		url += escape(vers) + "." + r.Kind
 		m := find(r.Path, r.Ver)
 		if r.Near > 0 {
@@ -341,7 +375,7 @@ func run(t *testing.T, plan any, keep bool) *simcheck.Outcome {
 		return url, expect{code: 200, zip: z}
 	}
 
-	requests, sharedFirst := 0, 0
+	requests, sharedFirst, gone, slow, unasserted := 0, 0, 0, 0, 0
 	rep := simrt.Run(t, simrt.Options{Sched: p.Sched, Strict: true, MaxSteps: 200000, KeepTrace: keep}, func(s *simrt.Sim) {
 		srv, err := goproxytest.NewServer(dir, "")
 		if err != nil {
@@ -365,10 +399,41 @@ func run(t *testing.T, plan any, keep bool) *simcheck.Outcome {
 					}
 					rec := httptest.NewRecorder()
 					req := httptest.NewRequest("GET", "http://"+hostport+url, nil)
-					h.ServeHTTP(rec, req)
-					requests++
 					tag := fmt.Sprintf("client %d request %d GET %s", ci, ri, url)
+					requests++
+					if r.Gone {
+						ctx, cancel := context.WithCancel(req.Context())
+						cancel()
+						h.ServeHTTP(rec, req.WithContext(ctx))
+						gone++
+						continue
+					}
+					// a slow client against the server's configured limits (net/http semantics)
+					hdrLimit, writeLimit := simnet.LookupServer(hostport).Timeouts()
+					if r.HeaderDelay > 0 {
+						simtime.Advance(time.Duration(r.HeaderDelay) * time.Second)
+						slow++
+						if hdrLimit > 0 && time.Duration(r.HeaderDelay)*time.Second > hdrLimit {
+							out.Violate("no-response", "%s: the request headers took %ds to arrive and the server dropped the connection (header read limit %v): no response", tag, r.HeaderDelay, hdrLimit)
+							return
+						}
+					}
+					var w http.ResponseWriter = rec
+					sw := &slowWriter{ResponseWriter: rec, stall: time.Duration(r.Stall) * time.Second, limit: writeLimit, start: simtime.Now()}
+					if r.Stall > 0 {
+						slow++
+					}
+					w = sw
+					h.ServeHTTP(w, req)
 					got := rec.Body.Bytes()
+					if sw.cut {
+						out.Violate("truncated-response", "%s: the server stopped writing %v after the request arrived (write limit %v): %d bytes of the response were delivered", tag, simtime.Now().Sub(sw.start), writeLimit, len(got))
+						return
+					}
+					if exp.code < 0 {
+						unasserted++
+						continue
+					}
 					if rec.Code != exp.code {
 						out.Violate("wrong-status", "%s: status %d, want %d (body %q)", tag, rec.Code, exp.code, trunc(got))
 						return
@@ -433,7 +498,11 @@ func run(t *testing.T, plan any, keep bool) *simcheck.Outcome {
 		out.Inconclusive = "step cap: " + rep.DescribeBlocked()
 	}
 	out.Nontrivial = rep.Switches > len(p.Clients)+3
+	out.SimSeconds = simtime.Offset().Seconds()
 	out.Count("requests", int64(requests))
+	out.Count("fault_client_gave_up", int64(gone))
+	out.Count("fault_slow_client", int64(slow))
+	out.Count("requests_by_commit_hash_unasserted", int64(unasserted))
 	out.Count("clients_sharing_first_request", int64(sharedFirst))
 	out.Count("listens", simnet.Listens)
 	out.Count("mutex_lock", simsync.Stats.MutexLock)
@@ -447,6 +516,27 @@ func run(t *testing.T, plan any, keep bool) *simcheck.Outcome {
 		out.Count("layout_"+m.Layout, 1)
 	}
 	return out
+}
+
+// slowWriter is the response path to a slow client: simulated time passes at
+// every write, and once more than the server's write limit has passed since the
+// request arrived the connection is dead, as with http.Server.WriteTimeout.
+type slowWriter struct {
+	http.ResponseWriter
+	stall, limit time.Duration
+	start        time.Time
+	cut          bool
+}
+
+func (w *slowWriter) Write(b []byte) (int, error) {
+	if w.stall > 0 {
+		simtime.Advance(w.stall)
+	}
+	if w.cut || w.limit > 0 && simtime.Now().Sub(w.start) > w.limit {
+		w.cut = true
+		return 0, os.ErrDeadlineExceeded
+	}
+	return w.ResponseWriter.Write(b)
 }
 
 func trunc(b []byte) string {
@@ -487,7 +577,7 @@ var harness = &simcheck.Harness{
 	Level:    "exploration",
 	Rule: "rapid draws a module directory (1-5 module versions over 4 paths incl. upper-case and /v2, 8 versions incl. pre-release, pseudo, +incompatible, upper-case and invalid-for-path ones; " +
 		".txt, .txtar or directory layout; .info, .mod, nested files, top-level and nested dot files, empty files, files without final newline), then 2-5 client tasks with 1-5 requests each " +
-		"(list / .info / .mod / .zip of stored and absent versions, near-miss spellings of stored versions such as v1, v1.0, v1.0.0+meta, malformed URLs; two thirds of the clients share their first request) and a schedule; " +
+		"(list / .info / .mod / .zip of stored and absent versions, near-miss spellings of stored versions such as v1, v1.0, v1.0.0+meta, malformed URLs, requests naming the stored pseudo-version by its commit hash (unasserted disturbers), and client faults: a client that has given up before the handler runs (cancelled context, unasserted), slow clients whose headers or response writes take 1-120 simulated seconds against whatever time limits the server was configured with; two thirds of the clients share their first request) and a schedule; " +
 		"non-trivial = more context switches than clients+3; distinct by decision-trace hash",
 	Gen:     genPlan,
 	NewPlan: func() any { return &Plan{} },
